@@ -24,10 +24,11 @@ def run(ctx, rep):
     N.check_last_note_end(ra)
     ri = rep.rule("index-table", "lane indices 0..4, flags 5/6, open 7", floor=7)
     N.check_index_table(ri)
-    rrf = rep.rule("resolution-field", "the resolution every tick-to-time conversion and tick distance uses is the integer written on "
-                                       "the [Song] Resolution line (converter int, digits-only capture)", floor=3)
-    from .C15 import check_resolution_field
-    check_resolution_field(ctx, rrf)
+    # the statement speaks of the exact tempo-map time (of the end tick / of a tick bound): all premises of C01's argument
+    from .C01 import exact_time_premises
+    exact_time_premises(ctx, rep, prefix="time.")
+    rgr = rep.rule("S1", "the lines whose lengths a note reports are exactly its tick's lines (group-adjacent schema)", floor=1)
+    N.check_grouping(rgr)
     rch = rep.rule("chain", "file -> lines (read().splitlines(), utf-8-sig) -> framing -> section route -> dispatcher -> builders: every link "
                             "hands the lines on unchanged", floor=10)
     from .chain import check_chain
